@@ -156,6 +156,9 @@ def ws_variants(f, rng):
     w = rng.choice(wss[:4])
     out.append(('=' + w.join(toks), 'ws'))
     out.append(('= ' + ''.join(toks), 'ws'))
+    # ... and after the last token (a formula typed with a blank at its end, a line break before the file was saved)
+    out.append(('=' + ''.join(toks) + rng.choice(wss), 'ws'))
+    out.append(('= ' + w.join(toks) + ' ', 'ws'))
     if any(t in ',;' for t in toks):
         out.append(('=' + ''.join({',': ';', ';': ','}.get(t, t) for t in toks), 'sep'))
     return out
